@@ -50,7 +50,7 @@ VIX = "dask_array.slicing._vindex"
 ARG = "dask_array.creation._arange"
 DB = "dask.blockwise"
 MT = "dask_array._materialize"
-MODS = [MT, "dask_array.core._blockwise_funcs", "dask_array.core._conversion", EX, BW, CU, RC, FA, IOB, SB, SU, "dask_array.slicing", CO, NC, TR, XP, SQ, BT, CC, SK, RD, RCM, SHF, VIX, ARG, "dask_array._overlap", "dask_array._map_blocks", "dask_array._chunk", "dask.layers", "dask_array.reductions._sliding_window", "dask_array.manipulation._reshape", "dask_array.reductions._arg_reduction", "dask_array.creation._diag", "dask_array.creation._diagonal", "dask_array.routines._unique", "dask_array.creation._ones_zeros", "dask_array.creation._utils", "dask_array.routines._topk", DB]
+MODS = [MT, "dask_array.core._blockwise_funcs", "dask_array.core._conversion", EX, BW, CU, RC, FA, IOB, SB, SU, "dask_array.slicing", CO, NC, TR, XP, SQ, BT, CC, SK, RD, RCM, SHF, VIX, ARG, "dask_array._overlap", "dask_array._map_blocks", "dask_array._chunk", "dask.layers", "dask_array.reductions._sliding_window", "dask_array.manipulation._reshape", "dask_array.reductions._arg_reduction", "dask_array.creation._diag", "dask_array.creation._diagonal", "dask_array.routines._unique", "dask_array.creation._ones_zeros", "dask_array.creation._utils", "dask_array.routines._topk", "dask_array.io._from_graph", DB]
 STUBS = SHIM_LIST + [
     "expression classes -> symx.nodes (real methods on cloned code; constructors/tokenize bypassed, structural names); the "
     "Array collection class -> subclass with cloned methods",
